@@ -50,6 +50,9 @@ func ReadIntoGraph(ctx context.Context, g storage.Graph, r io.Reader, b literal.
 		}
 		cnt++
 	}
+	if err := scanner.Err(); err != nil {
+		return cnt, err
+	}
 	return cnt, nil
 }
 
